@@ -77,6 +77,7 @@ fn main() {
             let _ = fs::remove_file(e.path());
         }
     }
+    let _log_guard = std::env::var("HX_LOG").ok().map(|f| ckb_logger_service::init_for_test(&f).expect("logger"));
     ckb_logger::debug!("hx-poolchain start");
     let (n_hist, steps) = match (thorough, std::env::var("HX_HIST").ok().and_then(|s| s.parse::<u64>().ok())) {
         (_, Some(n)) => (n, env_u64("HX_STEPS", 60)),
